@@ -476,6 +476,8 @@ def _operator_expr(repo, func, atom_of):
                 return env[e.id]
             raise AnalysisError(f'free name {e.id}')
         if isinstance(e, ast.Constant):
+            if isinstance(e.value, bool) or not isinstance(e.value, (int, float)):
+                raise AnalysisError(f'non-numeric literal {e.value!r}')
             return sp.Rational(repr(e.value)) if isinstance(e.value, float) else sp.Integer(e.value)
         if isinstance(e, ast.UnaryOp) and isinstance(e.op, ast.USub):
             return -tr(e.operand)
@@ -511,6 +513,8 @@ def _operator_expr(repo, func, atom_of):
     result = None
     for st in U.body_without_docstring(func):
         if isinstance(st, ast.Assign) and isinstance(st.targets[0], ast.Name):
+            if U.dead_callfree_store(func, st):
+                continue
             env[st.targets[0].id] = tr(st.value)
         elif isinstance(st, ast.Return):
             result = tr(st.value)
